@@ -39,6 +39,7 @@ def dispatch (j : Json) : R Json := do
   | "disc.transform" => DriverDisc.transform j
   | "disc.reload" => DriverDisc.reload j
   | "disc.update" => DriverDisc.update j
+  | "disc.remove" => DriverDisc.remove j
   | "judge.C04" => DriverDisc.judgeC04 j
   | "judge.C05" => DriverDisc.judgeC05 j
   | "multi.assemble" => DriverMulti.assembleReq j
